@@ -267,3 +267,15 @@ def mut_args_of(b, t):
         return b.mut_args(t)
     except Exception:
         return []
+
+
+def summary_forwarders(ctx):
+    """TradingSummaryGenerator::update_from_{balance,position} hand every point to the tear sheet of the point's own key"""
+    G = "barter::statistic::summary::TradingSummaryGenerator"
+    for fn, want in (("update_from_balance", "TearSheetAssetGenerator::update_from_balance(AssetTearSheetManager::asset_mut(self, balance.0.asset), balance)"),
+                     ("update_from_position", "TearSheetGenerator::update_from_position(InstrumentTearSheetManager::instrument_mut(self, position.instrument), position)")):
+        fb = ctx.fbody(name=fn, self_adt=G, trait="")
+        fw = [(bi, render(tm)) for bi, t, tm in fb.real_calls() if mir.short(tm[1]).endswith("::" + fn)]
+        ctx.check("TradingSummaryGenerator::" + fn, len(fw) == 1 and fw[0][1] == want and fb.guard(fw[0][0]) == frozenset([frozenset()]),
+                  "every snapshot / closed position is forwarded, unconditionally, to the tear sheet keyed by its own asset / instrument",
+                  got=[(x[1][:160], render_guard(fb.guard(x[0]))[:120]) for x in fw], key="forward-every")
